@@ -19,11 +19,12 @@ func (Engine) Name() string { return "E4-store" }
 
 // Runs implements core.Engine.
 func (Engine) Runs(prop, tier string) int {
+	quick := map[string]int{"C19": 24000, "C09": 100000}[prop]
 	if tier == "thorough" {
-		return 1200000
+		return quick * 40
 	}
 
-	return 40000
+	return quick
 }
 
 // Describe implements core.Engine.
